@@ -5,6 +5,7 @@ package c01
 import (
 	"bytes"
 	"fmt"
+	"io"
 	"strings"
 	"testing"
 
@@ -29,6 +30,11 @@ func convertOracle(c *kit.Case) error {
 	cfg := gen.ParseConfig(c.Config)
 	md := cfg.MD()
 	src := c.Bytes["src"]
+	if k := c.Ints["failfirst"]; k != 0 {
+		// the statement is about calls whose destination does not fail; an earlier call on the same instance
+		// (or in the same process) whose destination did fail must not change that
+		_ = md.Convert(src, &failingWriter{left: int(k) - 1})
+	}
 	var b1 bytes.Buffer
 	if err := md.Convert(src, &b1); err != nil {
 		return kit.Violf("convert-error", "Convert returned %v", err)
@@ -43,6 +49,19 @@ func convertOracle(c *kit.Case) error {
 		return kit.Violf("parse-render-differs", "Convert gave %q, Parse+Render gave %q", b1.Bytes(), b2.Bytes())
 	}
 	return nil
+}
+
+// failingWriter accepts `left` bytes and fails from then on.
+type failingWriter struct{ left int }
+
+func (w *failingWriter) Write(p []byte) (int, error) {
+	if len(p) <= w.left {
+		w.left -= len(p)
+		return len(p), nil
+	}
+	n := w.left
+	w.left = 0
+	return n, io.ErrClosedPipe
 }
 
 func nontrivial(src []byte, doc ast.Node) bool {
@@ -72,6 +91,10 @@ func nontrivial(src []byte, doc ast.Node) bool {
 
 func run(t kit.TB, cfg gen.Config, src []byte, class string) {
 	c := kit.NewCase("convert", cfg.String()).B("src", src)
+	if rt, ok := t.(*rapid.T); ok && rapid.IntRange(0, 15).Draw(rt, "failfirst") == 0 {
+		c.I("failfirst", int64(1+rapid.IntRange(0, 40).Draw(rt, "failat")))
+		kit.R.Class("after-a-failed-conversion")
+	}
 	lastDoc = nil
 	if kit.Check(t, c) {
 		kit.R.Class("gen:" + class)
